@@ -18,7 +18,7 @@ import traceback
 import schema_gen
 from common import (Ctx, Failure, REPO, SRC, cbool, cjson, clist, cnat, copt, corpus_cases, cstr, shrink_list)
 
-COQ_TARGETS = ["props/P_C20.vo", "corr/Corr_C20.vo"]
+COQ_TARGETS = ["props/P_C20.vo", "corr/Corr_C20.vo", "corr/Corr_C14.vo"]   # Corr_C14: extractor model on the literal space
 PROOF_FILES = ["proofs/Schema_proofs.v"]
 RULE = ("specs for the five kinds: generated from the CRD schema itself (every optional part present/absent, "
         "oneOf/anyOf alternatives, free-form maps with literals and random CEL), the definitions under "
@@ -30,7 +30,9 @@ RULE = ("specs for the five kinds: generated from the CRD schema itself (every o
         "schema-typed path); a type confusion (unhashable list/object, null, bool, number, str) at EVERY schema "
         "position of every kind; sequences of 3-6 definitions offered to the real cache in one process, later ones "
         "referencing earlier ones that read their inputs through odd-but-valid CEL (both orders, with re-offer; "
-        "re-prepares by the cache observed); CEL text in expression-bearing fields comes from a grammar-based "
+        "re-prepares by the cache observed); literals from the whole lexical space of cel.lark (90 spellings) in 31 "
+        "positions (index/member chains, call/method/macro arguments, map/list/message literals, receivers, "
+        "operands) in every expression field of every kind and as a full spelling x position matrix; CEL text in expression-bearing fields comes from a grammar-based "
         "generator (all member/index/call/macro/literal/unary/conditional shapes) plus unparseable text. "
         "Each spec is validated (real vs model), prepared directly and through prepare_and_cache with a cache "
         "holding prepared Functions. Non-trivial = spec is a non-empty dict; distinct by (kind, spec)")
@@ -418,13 +420,59 @@ METHODS = ["size", "startsWith", "endsWith", "contains", "matches", "self_ref", 
            "with_name", "m"]
 MACROS = ["map", "filter", "all", "exists", "exists_one"]
 BINOPS = ["+", "-", "*", "/", "%", "==", "!=", "<", "<=", ">", ">=", "&&", "||", "in"]
-LITS = ["0", "1", "42", "7u", "0x1F", "1.5", "2e3", ".5", "1e-2", "true", "false", "null", "'s'", '"d"', "''",
-        "r'raw\\n'", 'b"by"', '"""tri"ple"""', "'esc\\n\\t\\''", "9223372036854775807", "'=x'"]
+# LITS: see LEX below
 GARBAGE = ["1 false", "x true", "Infinity true", "inputs.a false", "a +", "(", ")", "a b", "a..b", "[1,", "{a:",
            "'unterminated", "a ? b", "1 2", "", "=", "==", "@", "#", "a[", "a.", ".", "f(,)", "1 +* 2", "a ? : b",
            "{1 2}", "[,]", "T{a}", "a.b(", "\"x", "1.", "x y z", "!!", "-", "a in", "?", "\\", "$x", "a:b",
            "true false", "null true", "(true) false", "[true false]", "{true: false true}", "9223372036854775808",
            "99999999999999999999999", "1e999", "a\nb c", "\x00"]
+
+
+# ---- the lexical space of CEL literals (cel.lark: INT_LIT, UINT_LIT, FLOAT_LIT, STRING_LIT, MLSTRING_LIT,
+# ---- BYTES_LIT, BOOL_LIT, NULL_LIT) --------------------------------------------------------------------
+
+LEX = {
+    "int": ["0", "1", "7", "42", "00", "01", "007", "0123456789", "-1", "-0", "-007", "2147483648",
+            "9223372036854775807", "-9223372036854775808", "9223372036854775808", "99999999999999999999999"],
+    "hex": ["0x0", "0x1F", "0xff", "0x00a", "0xDEADbeef", "-0x10", "0x7fffffffffffffff", "0xffffffffffffffffff"],
+    "uint": ["0u", "1u", "7U", "007u", "0x1u", "0xFFU", "18446744073709551615u", "-1u"],
+    "float": ["1.0", "1.", "0.5", ".5", "00.50", "1e3", "1E3", "1e+3", "1e-3", "1.5e10", "1.e2", "-2.5", "-.5",
+              "-1e3", "1e999", "0.0", "-0.0"],
+    "str": ["'s'", '"d"', "''", '""', "'a.b'", "'[0]'", "'.x'", "' '", "'é'", "'\U0001F600'", "'q\"uote'",
+            "\"it's\"", "'esc\\n\\t\\''", '"q\\"uote"', "'\\x41'", "'\\u00e9'", "'\\101'", "'\\U0001F600'",
+            "'back\\\\slash'", "r'raw\\n'", 'R"raw\\"', "'" * 3 + "tri'ple" + "'" * 3, '"' * 3 + 'tri"ple' + '"' * 3,
+            "r" + "'" * 3 + "raw tri" + "'" * 3, "'" * 3 + "multi\nline" + "'" * 3, '"' * 3 + 'a\n"b\n' + '"' * 3,
+            "'=x'", "'steps'", "'0'", "'01'"],
+    "bytes": ["b'by'", 'B"by"', "b''", "b" + "'" * 3 + "x" + "'" * 3, "b" + '"' * 3 + "y" + '"' * 3, "br'raw\\n'",
+              "b'\\xff\\x00'", "b'\\101'"],
+    "const": ["true", "false", "null"],
+}
+LEX_ALL = [x for k in LEX.values() for x in k]
+LITS = LEX_ALL          # every place that used the short list now draws from the whole space
+
+
+def lit(rng, kinds=None) -> str:
+    kind = rng.choice(kinds or ["int", "int", "hex", "uint", "float", "str", "str", "bytes", "const"])
+    return rng.choice(LEX[kind])
+
+
+def lit_positions(path, a, b, c):
+    """the positions a literal can take: member / index chains, call / method / macro arguments, map and list
+    and message literals, literal receivers, operands."""
+    return [
+        f"{path}[{a}]", f"{path}[{a}][{b}]", f"{path}[{a}].name[{b}].x[{c}]", f"{path}.parts[{a}]",
+        f"{path}[{a}].f({b})", f"size({a}, {b})", f"f({a})", f".g({a}, {b}, {c})", f"{path}.m({a})", f"{path}.m({a}, {b})",
+        f"{path}.map(v, v[{a}])", f"{path}.filter(v, v[{a}] == {b})", f"{path}.exists(v, {a})",
+        f"{path}.all(v, v.k[{a}][{b}] != {c})", f"{{{a}: {b}}}[{c}]", f"{{{a}: {b}, {c}: {a}}}", f"[{a}, {b}][{c}]",
+        f"[{a}][{b}].z", f"T{{a: {a}, b: {b}}}.a[{c}]", f"{a}[{b}]", f"({a})[{b}].y", f"{a}.size()", f"{a} + {b}",
+        f"{a} == {b} ? {c} : {a}", f"{path}[{a}] in [{b}, {c}]", f"-{a}", f"!{a}", f"{path}[-{a}]",
+        f"has({path}.x) ? {path}[{a}] : {b}", f"steps[{a}].value + steps.abc[{b}]", f"parent[{a}][{b}]",
+    ]
+
+
+def lit_expr(rng) -> str:
+    path = ".".join([rng.choice(ROOTS)] + [rng.choice(FIELDS) for _ in range(rng.randint(0, 2))])
+    return rng.choice(lit_positions(path, lit(rng), lit(rng), lit(rng)))
 
 
 def cel(rng, d=0) -> str:
@@ -440,7 +488,9 @@ def cel(rng, d=0) -> str:
         return rng.choice(LITS)
     sub = lambda: cel(rng, d + 1)  # noqa: E731
     shape = rng.choice(["dot", "dot", "index", "index", "call", "method", "macro", "list", "map", "msg", "paren",
-                        "unary", "binop", "binop", "cond", "has", "dotchain", "rootindex", "refs"])
+                        "unary", "binop", "binop", "cond", "has", "dotchain", "rootindex", "refs", "litpos", "litpos"])
+    if shape == "litpos":
+        return lit_expr(rng)
     if shape == "refs":
         return multi_ref(rng, force_mix=rng.random() < 0.5)
     if shape == "rootindex":
@@ -606,7 +656,11 @@ class Gen:
         self.labels = []
 
     # -- leaves ---------------------------------------------------------------------------------
+    lit_mode = False
+
     def expr(self):
+        if self.lit_mode:
+            return "=" + lit_expr(self.rng)
         return "=" + cel_text(self.rng, self.bad_cel)
 
     def literal(self, d=0):
@@ -1246,6 +1300,14 @@ def gen_cases(ctx: Ctx, schemas):
                 bases[kind].append(spec)
             yield {"kind": kind, "spec": spec, "stream": "schema-valid"}
         if kind != "ResourceTemplate":
+            for i in range(40 * scale):
+                # literals of the whole lexical space in index / argument / operand positions, in every
+                # expression-bearing field of the kind
+                g = Gen(rng, bad_cel=0.0, p_opt=0.9, p_expr=0.95)
+                g.lit_mode = True
+                doc = g.spec(kind, schemas)
+                fix_refs(doc, rng, only_ok=True)
+                yield {"kind": kind, "spec": doc, "stream": "lit-fields"}
             for i in range(n_cel):
                 g = Gen(rng, bad_cel=rng.choice([0.0, 0.0, 0.15, 0.5]), p_opt=rng.choice([0.5, 0.9]), p_expr=0.95)
                 yield {"kind": kind, "spec": g.spec(kind, schemas), "stream": "cel"}
@@ -1820,8 +1882,16 @@ def cel_bulk(ctx: Ctx, world: World, counters: Counters, n: int):
     env = celpy.Environment(annotations=koreo_function_annotations)
     shapes: dict[str, int] = {}
     lifted = 0
-    for i in range(n):
-        text = cel_text(ctx.rng, bad=1.0 if i % 4 == 0 else 0.0)
+    # every literal of LEX_ALL in every literal position once (as a, with random b, c), then random texts
+    matrix = []
+    n_pos = len(lit_positions("inputs.a", "0", "0", "0"))
+    for L in LEX_ALL:
+        for pi in range(n_pos):
+            matrix.append(lit_positions(ctx.rng.choice(["inputs.a", "steps.one", "parent", "locals.x.y"]), L,
+                                        lit(ctx.rng), lit(ctx.rng))[pi])
+    ctx.count("cel-bulk:literal-matrix", len(matrix))
+    for i in range(len(matrix) + n):
+        text = matrix[i] if i < len(matrix) else cel_text(ctx.rng, bad=1.0 if i % 4 == 0 else 0.0)
         try:
             r = prepare_expression(env, "=" + text, "loc")
             if isinstance(r, PermFail):
@@ -1844,6 +1914,41 @@ def cel_bulk(ctx: Ctx, world: World, counters: Counters, n: int):
               "relation_in", "fieldinits", "mapinits", "exprlist", "literal", "addition_add", "relation_eq",
               "conditionalor_or" if False else "conditionalor", "conditionaland"):
         ctx.dist[f"cel-shape:{k}"] = shapes.get(k, 0)
+
+
+def literal_space_vs_extract_model(ctx: Ctx):
+    """C20_extract_total is a theorem about the C14 worker's model (Extract.v takes a literal token's TEXT: INT_LIT
+    verbatim, everything else `text.strip(text[0])`).  Tie that model to the real extractor on the whole lexical
+    space of CEL literals in index positions, with the C14 plugin's own case printer and Corr_C14.check_case."""
+    try:
+        from props import C14
+    except Exception as e:  # noqa: BLE001
+        ctx.notes.append({"literal-space correspondence skipped": f"props.C14 not importable: {e!r}"})
+        return
+    import celpy
+    env = C14.cel_env()
+    cases, terms = [], []
+    seen = set()
+    for L in LEX_ALL:
+        other = lit(ctx.rng)
+        pos = lit_positions("inputs.a", L, other, lit(ctx.rng))
+        picks = pos[:5] + [pos[10], pos[14], pos[17], pos[19], pos[27], pos[29], pos[30]]
+        for text in picks:
+            if text in seen:
+                continue
+            seen.add(text)
+            try:
+                ast_ = env.compile(text)
+            except celpy.CELParseError:
+                continue
+            except Exception:  # noqa: BLE001 - judged by the prepare oracle (cel_bulk lifts it)
+                continue
+            case, term, _obs, _steps = C14.extract_case(ctx, C14.from_lark(ast_), True, src=text)
+            cases.append(case)
+            terms.append(term)
+    if ctx.model_ok and terms:
+        C14.correspond(ctx, "extract_argument_structure on the CEL literal space vs Extract.extract (C14 model)",
+                       cases, terms)
 
 
 def run(ctx: Ctx):
@@ -1903,6 +2008,7 @@ def run(ctx: Ctx):
         gc.collect()
     if ctx.model_ok:
         correspond_pooled(ctx, "schema.validate + prepare gate vs Schema.validate + prepare_gate", cases, terms)
+    literal_space_vs_extract_model(ctx)
 
 
 def replay(ctx: Ctx, data):
